@@ -222,7 +222,9 @@ def run_property(prop, tier, jobs, kinds, text, bounds, outside=(), extra_assump
                 # the model is over uninterpreted calendar / rule functions: confirm on a panel of concrete footers loaded natively
                 w = None; key = None; case = {"footer_panel": True}
                 if r["name"].startswith("ExtendTransitions"):
-                    if fobj["desc"].startswith("seam:"):
+                    if fobj["desc"].startswith("seam: no rule instant"):
+                        w = tz_replay.check_newyear_spill(); key = "seam:rule-instant-before-new-year"; case = {"newyear_spill": True}
+                    elif fobj["desc"].startswith("seam:"):
                         # replay with the last recorded transition in the model's year (clamped to what the calendar walk of the panel handles quickly)
                         by = max(-100000, min(1568, next((v for k_, v in fobj["model"].items() if k_.startswith("LY0")), 1000)))
                         w = tz_replay.check_footer_panel(by); key = "seam:generated-years-end-before-1970"; case = {"footer_panel": True, "base_year": by}
@@ -270,6 +272,7 @@ def run_property(prop, tier, jobs, kinds, text, bounds, outside=(), extra_assump
 
 def replay_case(case):
     if "transoffset" in case: return tz_replay.check_transoffset(case["transoffset"], case["form"])
+    if case.get("newyear_spill"): return tz_replay.check_newyear_spill()
     if case.get("footer_panel"): return tz_replay.check_footer_panel(case.get("base_year", 1990))
     return tz_replay.check_case(case["zone"], case.get("kind") or "break") or \
            next((w for w in (tz_replay.check_case(case["zone"], k) for k in ("make", "roundtrip", "order", "next", "prev")) if w), None) or \
